@@ -313,7 +313,9 @@ class C21(RVCheck):
     mode = "sem"
     nstates = 2
     rule = ("code images: 1-3 non-overlapping blocks (unsorted on input) of 0-4 words drawn from valid words of many "
-            "mnemonics, one undecodable word, and a truncated tail of 1-3 bytes, at 4 image bases, RV64IMA and RV32IM; "
+            "mnemonics (half of them pc-relative: auipc, jal, branches; a third of the words repeat a word used earlier in "
+            "the image or in an earlier image), one undecodable word, and a truncated tail of 1-3 bytes, at 4 image bases, "
+            "RV64IMA and RV32IM; "
             "parser.Parse must fail iff some 4-byte position holds an undecodable or truncated word; otherwise the "
             "instructions must tile every block in address order with the bytes at their address, and the effects of "
             "every instruction must equal RV!Exec at that address on 2 machine states; non-trivial = image with >= 2 "
@@ -336,17 +338,26 @@ class C21(RVCheck):
         rng = random.Random(seed * 275604541 + 21)
         n = 600 if tier == "quick" else 10000
         gs = []
+        seen_by = {}
         for i in range(n):
             xlen, exts = rng.choice([(64, "MA"), (64, "MA"), (32, "M"), (64, "")])
             ts = [t for t in T if valid_in(t, xlen, exts)]
+            pcrel = [t for t in ts if t["fmt"] in ("U", "J", "B")] or ts
+            seen = seen_by.setdefault((xlen, exts), [])
             nb = rng.choice([1, 1, 2, 3])
             image, off = [], rng.choice([0, 4, 16])
             for b in range(nb):
                 bs = []
                 for _ in range(rng.choice([0, 1, 2, 3, 4]) if nb > 1 else rng.choice([1, 2, 3, 4])):
                     c = rng.random()
-                    if c < 0.9:
-                        bs += word_bytes(encode(rng.choice(ts), rng, xlen))
+                    if c < 0.35 and seen:
+                        # the same word again at another address (of this image or of an earlier image handled by the same
+                        # process): nothing about an instruction may be remembered by its encoding
+                        bs += word_bytes(rng.choice(seen[-6:] if rng.random() < 0.7 else seen))
+                    elif c < 0.9:
+                        w = encode(rng.choice(pcrel if rng.random() < 0.5 else ts), rng, xlen)
+                        seen.append(w)
+                        bs += word_bytes(w)
                     elif c < 0.95:
                         bs += word_bytes(rng.choice([0x00000000, 0xFFFFFFFF, 0x0000007F, 0x00007013 | 0x7000 << 0]))
                     else:
